@@ -271,7 +271,7 @@ func checkSetupV3(r *Run, p *Prog, ro *Roles, act *ssa.Function) {
 			stored := false
 			for _, b := range f.Blocks {
 				for _, in := range b.Instrs {
-					if st, ok := in.(*ssa.Store); ok && isStoreToServiceField(in, "listener") {
+					if st, ok := in.(*ssa.Store); ok && isStoreToServiceField(in, svcF.Listener) {
 						var vals []ssa.Value
 						if ph, ok := st.Val.(*ssa.Phi); ok {
 							vals = ph.Edges
